@@ -30,8 +30,8 @@ CONSTANT MaxInner     \* control actions allowed inside each window of one packe
 
 VARIABLE pend         \* the packet in flight
 
-cvars == <<bySsrc, byRid, byMid, route, closed, full, cfg, cfg0, reg, hist, last, pend>>
-cview == <<bySsrc, byRid, byMid, route, closed, full, cfg, cfg0, reg, pend>>
+cvars == <<bySsrc, byRid, byMid, route, closed, full, cfg, cfg0, bridged, reg, hist, last, pend>>
+cview == <<bySsrc, byRid, byMid, route, closed, full, cfg, cfg0, bridged, reg, pend>>
 
 Idle == [stage |-> "idle", s |-> 0, sel |-> 0, by |-> "", cands |-> {}, mayDrop |-> TRUE, n |-> 0,
          holders |-> 0, identified |-> FALSE]
@@ -64,7 +64,7 @@ PktBegin(s, pt, rid, mid) ==
               identified |-> ({RidSel(rid), MidSel(mid)} \ {0} # {} \/ bySsrc[s] # 0)]
   /\ last' = CLast("begin", {}, {{}}, 0)
   /\ Log([op |-> "begin", s |-> s, pt |-> pt, rid |-> rid, mid |-> mid])
-  /\ UNCHANGED <<byRid, byMid, route, closed, full, cfg, cfg0, reg>>
+  /\ UNCHANGED <<byRid, byMid, route, closed, full, cfg, cfg0, bridged, reg>>
 
 PktSend ==
   LET x == pend.sel
@@ -77,7 +77,7 @@ PktSend ==
      ELSE /\ pend' = Idle
           /\ last' = CLast("send", Out(x), allowed, 0)
   /\ Log([op |-> "send"])
-  /\ UNCHANGED <<bySsrc, byRid, byMid, route, closed, full, cfg, cfg0, reg>>
+  /\ UNCHANGED <<bySsrc, byRid, byMid, route, closed, full, cfg, cfg0, bridged, reg>>
 
 PktRemove ==
   LET x == pend.sel IN
@@ -92,7 +92,7 @@ PktRemove ==
   /\ pend' = Idle
   /\ last' = CLast("remove", {}, {{}}, x)
   /\ Log([op |-> "remove"])
-  /\ UNCHANGED <<closed, full, cfg, cfg0>>
+  /\ UNCHANGED <<closed, full, cfg, cfg0, bridged>>
 
 Control == \/ Register \/ (\E l \in Ls : Close(l)) \/ Clear
            \/ (\E l \in Ls : Fill(l) \/ Drain(l))
